@@ -40,7 +40,7 @@ ASSUMPTIONS = [
     "a law is identified by its first 6 raw moments in the location/scale check (affine images of one fixed base law)",
 ]
 TIMEOUT = {"quick": 40, "thorough": 90}
-DEADLINE = {"quick": 100, "thorough": 1500}
+DEADLINE = {"quick": 100, "thorough": 1000}
 MIN_DECIDING = {"quick": 100, "thorough": 1500}
 PER_FAMILY = {"quick": 13, "thorough": 400}
 N_SYM = {"quick": 25, "thorough": 200}
